@@ -14,6 +14,7 @@ type plan struct {
 	span     []int64                // heights whose FIRST request is answered with a tampered response
 	resp     map[int64]*types.Block // requested height -> block served (nil = a response carrying a nil block)
 	claim    int64                  // > 0: status height the peer claims beyond its range
+	hangup   time.Duration          // > 0: the peer closes its connection this long after its blocks for span[0] and span[1] have arrived
 	describe string
 }
 
@@ -35,12 +36,19 @@ var forgeKinds = []string{
 
 var statusKinds = []string{"status-overclaim"}
 
+// raceKinds: a bad block that is expensive to check, followed by the peer's own
+// disconnection while the node is checking it.
+var raceKinds = []string{"big-hangup"}
+
+const bigTxSize = 4 << 20
+
 func allKinds() []string {
 	var k []string
 	k = append(k, bodyKinds...)
 	k = append(k, commitKinds...)
 	k = append(k, forgeKinds...)
 	k = append(k, statusKinds...)
+	k = append(k, raceKinds...)
 	return k
 }
 
@@ -155,6 +163,21 @@ func makePlan(c *chain, kind string, h int64) *plan {
 			return nil
 		}
 		p.claim = chainLen + h
+		return p
+	case isIn(raceKinds, kind):
+		if h > chainLen-1 {
+			return nil
+		}
+		b := c.genuine(h)
+		big := make([]byte, bigTxSize)
+		for i := range big {
+			big[i] = byte(i*31 + 7)
+		}
+		b.Data.Txs = append(b.Data.Txs, types.Tx(big))
+		p.span = []int64{h, h + 1}
+		p.resp[h] = b
+		p.resp[h+1] = c.genuine(h + 1)
+		p.hangup = 130 * time.Millisecond
 		return p
 	case isIn(bodyKinds, kind):
 		if h > chainLen-1 {
